@@ -195,6 +195,21 @@ def run(tier):
                           % (mod, cnt, mod, 2 * cnt, got, b))
     chk.part('fmt_block_count_table', states=ntab, transitions=ntab, traces_validated_against_impl=ntab, evaluations=ntab,
              complete_domain=(tier == 'thorough'))
+    # one state, many calls (FMT words with differing synchro values, SDE sectors, KRP keys): the explicit-state bundles of C10, whose
+    # oracle -- the one-shot function -- is tied to the standard by the reference cases above
+    import C10
+    bs = C10.bundles(tier)
+    idx = [i for i, b in enumerate(bs) if b.name.startswith(('beltFMT', 'beltSDE', 'beltKRP'))]
+    res = vf.pmap(C10.search, [(i, tier) for i in idx], case_timeout=900)
+    for i, r in zip(idx, res):
+        b = bs[i]
+        rec = {'cfg': CFG, 'kind': 'c10bundle', 'index': i, 'tier': tier, 'name': b.name}
+        if isinstance(r, dict):
+            chk.violation('belt-stateful:' + b.name, rec, '%s: %s' % (b.name, (r.get('harness_error') or str(r))[-500:])); continue
+        ns, nt, viol, capped = r
+        chk.part('stateful ' + b.name, states=ns, transitions=nt, traces_validated_against_impl=nt)
+        if viol:
+            chk.violation('belt-stateful:' + b.name, rec, '%s  [path %s]' % (viol[1], viol[0]))
     chk.sample({'fmt_table': 'beltFMT_keep(mod, 2*count) vs exact big-integer block count', 'mods': '2..65536', 'counts': counts if len(counts) < 20 else '1..300'})
     chk.assumptions += ['reference ref/belt.py is specification-level and gated by the appendix vectors (ref/vectors/belt.json) at setup',
                         'value dimension by alphabets (keys, IVs, data patterns); shapes (lengths, key sizes, counters) enumerated completely within bounds',
@@ -205,6 +220,9 @@ def run(tier):
 def replay(rec):
     global CFG, _lib
     L = lib()
+    if rec['kind'] == 'c10bundle':
+        import C10
+        return C10.replay(rec)
     if rec['kind'] == 'case':
         r = check_case((rec['fn'], cat.dec_case(rec['case'])))
         return r[1] if not isinstance(r, dict) else str(r)
